@@ -7,6 +7,9 @@ Core/Prog.vos Core/Prog.vok Core/Prog.required_vos: Core/Prog.v Core/Base.vos
 Py/Sig.vo Py/Sig.glob Py/Sig.v.beautified Py/Sig.required_vo: Py/Sig.v Core/Base.vo
 Py/Sig.vio: Py/Sig.v Core/Base.vio
 Py/Sig.vos Py/Sig.vok Py/Sig.required_vos: Py/Sig.v Core/Base.vos
+Py/Mro.vo Py/Mro.glob Py/Mro.v.beautified Py/Mro.required_vo: Py/Mro.v Core/Base.vo
+Py/Mro.vio: Py/Mro.v Core/Base.vio
+Py/Mro.vos Py/Mro.vok Py/Mro.required_vos: Py/Mro.v Core/Base.vos
 Sem/Interp.vo Sem/Interp.glob Sem/Interp.v.beautified Sem/Interp.required_vo: Sem/Interp.v Core/Base.vo Core/Prog.vo
 Sem/Interp.vio: Sem/Interp.v Core/Base.vio Core/Prog.vio
 Sem/Interp.vos Sem/Interp.vok Sem/Interp.required_vos: Sem/Interp.v Core/Base.vos Core/Prog.vos
@@ -58,6 +61,9 @@ Sem/ObjModel.vos Sem/ObjModel.vok Sem/ObjModel.required_vos: Sem/ObjModel.v Core
 Sem/ScnObj.vo Sem/ScnObj.glob Sem/ScnObj.v.beautified Sem/ScnObj.required_vo: Sem/ScnObj.v Core/Base.vo Core/Prog.vo Py/Sig.vo Sem/Interp.vo Sem/InterpFacts.vo Sem/Model.vo Sem/Show.vo Gen/State.vo Sem/ScnSwitch.vo Gen/Validators.vo Gen/HasPatcher.vo Gen/Contracts.vo Gen/Dispatch.vo Sem/Scenario.vo Sem/ObjModel.vo
 Sem/ScnObj.vio: Sem/ScnObj.v Core/Base.vio Core/Prog.vio Py/Sig.vio Sem/Interp.vio Sem/InterpFacts.vio Sem/Model.vio Sem/Show.vio Gen/State.vio Sem/ScnSwitch.vio Gen/Validators.vio Gen/HasPatcher.vio Gen/Contracts.vio Gen/Dispatch.vio Sem/Scenario.vio Sem/ObjModel.vio
 Sem/ScnObj.vos Sem/ScnObj.vok Sem/ScnObj.required_vos: Sem/ScnObj.v Core/Base.vos Core/Prog.vos Py/Sig.vos Sem/Interp.vos Sem/InterpFacts.vos Sem/Model.vos Sem/Show.vos Gen/State.vos Sem/ScnSwitch.vos Gen/Validators.vos Gen/HasPatcher.vos Gen/Contracts.vos Gen/Dispatch.vos Sem/Scenario.vos Sem/ObjModel.vos
+Sem/ClassModel.vo Sem/ClassModel.glob Sem/ClassModel.v.beautified Sem/ClassModel.required_vo: Sem/ClassModel.v Core/Base.vo Py/Mro.vo Sem/Show.vo
+Sem/ClassModel.vio: Sem/ClassModel.v Core/Base.vio Py/Mro.vio Sem/Show.vio
+Sem/ClassModel.vos Sem/ClassModel.vok Sem/ClassModel.required_vos: Sem/ClassModel.v Core/Base.vos Py/Mro.vos Sem/Show.vos
 Sem/ScnSwitch.vo Sem/ScnSwitch.glob Sem/ScnSwitch.v.beautified Sem/ScnSwitch.required_vo: Sem/ScnSwitch.v Core/Base.vo Core/Prog.vo Sem/Interp.vo Sem/Show.vo Gen/State.vo
 Sem/ScnSwitch.vio: Sem/ScnSwitch.v Core/Base.vio Core/Prog.vio Sem/Interp.vio Sem/Show.vio Gen/State.vio
 Sem/ScnSwitch.vos Sem/ScnSwitch.vok Sem/ScnSwitch.required_vos: Sem/ScnSwitch.v Core/Base.vos Core/Prog.vos Sem/Interp.vos Sem/Show.vos Gen/State.vos
@@ -148,3 +154,9 @@ Thm/C14/Introspect.vos Thm/C14/Introspect.vok Thm/C14/Introspect.required_vos: T
 Props/C14.vo Props/C14.glob Props/C14.v.beautified Props/C14.required_vo: Props/C14.v Core/Base.vo Core/Prog.vo Py/Sig.vo Sem/Interp.vo Sem/Model.vo Sem/Scenario.vo Sem/ObjModel.vo Sem/ScnObj.vo Gen/ObjPin.vo Thm/C09/Compose.vo Thm/C14/Introspect.vo
 Props/C14.vio: Props/C14.v Core/Base.vio Core/Prog.vio Py/Sig.vio Sem/Interp.vio Sem/Model.vio Sem/Scenario.vio Sem/ObjModel.vio Sem/ScnObj.vio Gen/ObjPin.vio Thm/C09/Compose.vio Thm/C14/Introspect.vio
 Props/C14.vos Props/C14.vok Props/C14.required_vos: Props/C14.v Core/Base.vos Core/Prog.vos Py/Sig.vos Sem/Interp.vos Sem/Model.vos Sem/Scenario.vos Sem/ObjModel.vos Sem/ScnObj.vos Gen/ObjPin.vos Thm/C09/Compose.vos Thm/C14/Introspect.vos
+Thm/C11/Inherit.vo Thm/C11/Inherit.glob Thm/C11/Inherit.v.beautified Thm/C11/Inherit.required_vo: Thm/C11/Inherit.v Core/Base.vo Py/Mro.vo Sem/Show.vo Sem/ClassModel.vo
+Thm/C11/Inherit.vio: Thm/C11/Inherit.v Core/Base.vio Py/Mro.vio Sem/Show.vio Sem/ClassModel.vio
+Thm/C11/Inherit.vos Thm/C11/Inherit.vok Thm/C11/Inherit.required_vos: Thm/C11/Inherit.v Core/Base.vos Py/Mro.vos Sem/Show.vos Sem/ClassModel.vos
+Props/C11.vo Props/C11.glob Props/C11.v.beautified Props/C11.required_vo: Props/C11.v Core/Base.vo Py/Mro.vo Sem/Show.vo Sem/ClassModel.vo Gen/ObjPin.vo Thm/C11/Inherit.vo
+Props/C11.vio: Props/C11.v Core/Base.vio Py/Mro.vio Sem/Show.vio Sem/ClassModel.vio Gen/ObjPin.vio Thm/C11/Inherit.vio
+Props/C11.vos Props/C11.vok Props/C11.required_vos: Props/C11.v Core/Base.vos Py/Mro.vos Sem/Show.vos Sem/ClassModel.vos Gen/ObjPin.vos Thm/C11/Inherit.vos
